@@ -73,7 +73,10 @@ CodegenOK(d, f) ==
   /\ (Len(rs) = 1 /\ ~IsArray(f) /\ RW(rs[1]) = d.s /\ f.kind # "bool" => rs[1][1] = 0)
   /\ MaxBit(f) < d.s                                                             \* every emitted shift amount is < storage width
 
+(* bitfield(): "u8" | "u16" | "u32" | "u64" | "u128" | try_parse_arbitrary_int_type (uN, 1 <= N < 128, not a native width) *)
+BaseAccepted(d) == d.n \in {8, 16, 32, 64, 128} \/ d.n \in 1..127
 ParseAccepts(d, profile) ==
+  /\ BaseAccepted(d)
   /\ \A j \in 1..Len(d.fields) : ParseField(d, d.fields[j], profile) = "accept"
 
 ---------------------------------------------------------------------------
